@@ -585,3 +585,46 @@ pub fn json_depth_at_end(prefix: &[u8]) -> usize {
     }
     depth
 }
+
+
+/// An HTTP server that answers the first request it sees with a redirect (keep-alive) and never answers anything
+/// after that, on whatever connection it arrives, until the flag is set (or `hold` has passed).
+pub fn http_redirect_then_silent(hold: std::time::Duration) -> std::io::Result<(u16, std::sync::Arc<std::sync::atomic::AtomicBool>, std::thread::JoinHandle<usize>)> {
+    use std::io::{Read, Write};
+    use std::sync::atomic::{AtomicBool, Ordering};
+    let listener = std::net::TcpListener::bind("127.0.0.1:0")?;
+    let port = listener.local_addr()?.port();
+    let stop = std::sync::Arc::new(AtomicBool::new(false));
+    let stop2 = stop.clone();
+    let h = std::thread::spawn(move || -> usize {
+        listener.set_nonblocking(true).ok();
+        let t0 = std::time::Instant::now();
+        let mut conns: Vec<(std::net::TcpStream, Vec<u8>)> = Vec::new();
+        let mut requests = 0usize;
+        let mut buf = [0u8; 2048];
+        while t0.elapsed() < hold && !stop2.load(Ordering::SeqCst) {
+            if let Ok((s, _)) = listener.accept() {
+                s.set_nonblocking(true).ok();
+                conns.push((s, Vec::new()));
+            }
+            for (s, acc) in conns.iter_mut() {
+                if let Ok(n) = s.read(&mut buf) {
+                    acc.extend_from_slice(&buf[.. n]);
+                    while let Some(p) = acc.windows(4).position(|w| w == b"\r\n\r\n") {
+                        acc.drain(.. p + 4);
+                        requests += 1;
+                        if requests == 1 {
+                            s.set_nonblocking(false).ok();
+                            let _ = s.write_all(b"HTTP/1.1 302 Found\r\nLocation: /elsewhere\r\nContent-Length: 0\r\n\r\n");
+                            let _ = s.flush();
+                            s.set_nonblocking(true).ok();
+                        }
+                    }
+                }
+            }
+            std::thread::sleep(std::time::Duration::from_micros(500));
+        }
+        requests
+    });
+    Ok((port, stop, h))
+}
